@@ -60,6 +60,7 @@ type Val struct {
 	Dyn *Val
 	Org string
 	Src *Loc
+	From *CallEvent // for a Seq value: the call that produced it
 }
 
 type CallEvent struct {
@@ -72,6 +73,7 @@ type CallEvent struct {
 	Results []Val
 	Desc    string
 	Org     string
+	From    *CallEvent
 }
 
 type deferRec struct {
@@ -223,6 +225,7 @@ type Exec struct {
 	fvCells map[string]*Cell
 	fvPtrs  map[*ssa.FreeVar]Val
 	immutKeys map[string]bool
+	outerVals map[string]Val
 }
 
 func (x *Exec) note(format string, a ...interface{}) {
